@@ -65,6 +65,12 @@ func genProjectIndexed(r *rng, wid, pj int, tier string) Project {
 		}
 		g -= len(l.l)
 	}
+	if g < len(corpusProjects) {
+		p := corpusProjects[g] // every hand-written project as it stands, once
+		p.Types = append([]TypeSpec(nil), p.Types...)
+		p.Rules = append([]RuleSpec(nil), p.Rules...)
+		return p
+	}
 	return genProject(r, 10)
 }
 
